@@ -50,6 +50,8 @@ structure Api where
   /-- every wake-up re-tests `active` and leaves the loop when it is false -/
   loopChecksActive : Bool
   clear : Clear := .none
+  /-- (condition-variable loops) the loop condition / body tests the object's closed flag and leaves -/
+  checksFlag : Bool := true
   /-- what the loss thread does, per path, as seen from this call's wait object -/
   prog : Loss â†’ List LAct
 
@@ -84,7 +86,7 @@ def stepCaller (api : Api) (s : St) : St :=
   | .done => s
   | .start =>
     if api.precheck && !s.active then { s with pc := .done }
-    else if (api.wait == .event || api.wait == .cvLoop) && s.flag then { s with pc := .done }
+    else if (api.wait == .event || (api.wait == .cvLoop && api.checksFlag)) && s.flag then { s with pc := .done }
     else if api.clear != .none then { s with pc := .checked }
     else { s with pc := .waiting, notified := false }
   | .checked =>
@@ -94,7 +96,7 @@ def stepCaller (api : Api) (s : St) : St :=
   | .waiting =>
     if !wakeable api s then s            -- still blocked in the C-level wait
     else if api.loopChecksActive && !s.active then { s with pc := .done }
-    else if s.flag then { s with pc := .done }
+    else if (api.wait != .cvLoop || api.checksFlag) && s.flag then { s with pc := .done }
     else if api.wait == .cvOnce then { s with pc := .done }   -- single wait: returns whatever happened
     else { s with notified := false }    -- go round the loop again
 
@@ -160,34 +162,42 @@ def progOf (tail : List (String Ã— Bool)) (cl : List String) (k : Kind) : Loss â
 
 def srcProg (k : Kind) : Loss â†’ List LAct := progOf PV.Generated.C13.runTail PV.Generated.C13.closeSeq k
 
+/-- which object a wait site waits on, from the expression the source calls `.wait()` on -/
+def kindOfObj (obj : String) : Kind :=
+  if obj == "self.event" || obj == "self.status_event" then .chanEvent
+  else if obj == "self._cv" || obj == "self.out_buffer_cv" then .chanCv
+  else if obj == "self.server_accept_cv" then .accept
+  else if obj == "time" then .sessionPoll
+  else .transportPoll
+
+/-- the wait shape as classified by the generator; anything unknown is the most pessimistic shape
+    (one edge-triggered wait) -/
+def parseWait (k : String) : Wait :=
+  if k == "poll" then .poll else if k == "event" then .event else if k == "cvLoop" then .cvLoop else .cvOnce
+
+/-- one row per wait site found in the source (`PV.Generated.C13.waitShapes`):
+    open_channel          event.wait(0.1); if not active: raise
+    global_request        completion_event.wait(0.1); if not active: return None        (renegotiate_keys, start_client alike)
+    auth_wait_for_response event.wait(0.1); if not transport.is_active(): raise
+    send_user_message     clear_to_send.wait(0.1); if not active: return
+    channel_request       @open_only check; _event_pending() (clear); send; self.event.wait(); _set_closed() sets the event
+    recv_exit_status      status_event.wait(); set by _set_closed(), never cleared
+    recv                  BufferedPipe.read: while empty and not closed: cv.wait(); close() sets closed + notify_all
+    send                  _wait_for_send_window: while window == 0: if closed: return 0; cv.wait(); _set_closed notifies
+    accept (fixed)        `elif not self.active: None`; cv notified on every exit of run()
+    ensure_session (fixed) while not accepted: if not active: raise; sleep(0.1) -/
+def toApi (w : PV.Generated.C13.WaitShape) : Api :=
+  { name := w.row, wait := parseWait w.kind, precheck := w.precheck, loopChecksActive := w.loopChecksActive,
+    checksFlag := w.loopChecksFlag || parseWait w.kind != .cvLoop,
+    clear := if w.row == "channel_request" then
+               (if PV.Generated.C13.eventClearGuarded then .guarded else .unguarded) else .none,
+    prog := srcProg (kindOfObj w.obj) }
+
+def apiTable : List Api := PV.Generated.C13.waitShapes.map toApi
+
+/-- a transport-level poll loop that re-tests `active` on every wake-up (the shape of open_channel & co.) -/
 def pollRow (name : String) : Api :=
   { name, wait := .poll, precheck := false, loopChecksActive := true, prog := srcProg .transportPoll }
-
-def apiTable : List Api := [
-  pollRow "open_channel",           -- event.wait(0.1); if not active: raise
-  pollRow "global_request",         -- completion_event.wait(0.1); if not active: return None
-  pollRow "renegotiate_keys",
-  pollRow "start_client",
-  pollRow "auth_wait_for_response", -- event.wait(0.1); if not transport.is_active(): raise
-  pollRow "send_user_message",      -- clear_to_send.wait(0.1); if not active: return
-  -- channel requests: @open_only check; _event_pending() (clear); send; Channel._wait_for_event: self.event.wait();
-  -- _unlink()->_set_closed() sets the event on both paths
-  { name := "channel_request", wait := .event, precheck := false, loopChecksActive := false,
-    clear := if PV.Generated.C13.eventClearGuarded then .guarded else .unguarded,
-    prog := srcProg .chanEvent },
-  -- recv_exit_status: status_event.wait(); set by _set_closed(), never cleared
-  { name := "recv_exit_status", wait := .event, precheck := false, loopChecksActive := false,
-    prog := srcProg .chanEvent },
-  -- BufferedPipe.read: while empty and not closed: cv.wait(); close() sets closed + notify_all
-  { name := "recv", wait := .cvLoop, precheck := false, loopChecksActive := false, prog := srcProg .chanCv },
-  -- _wait_for_send_window: while window == 0: if closed: return 0; cv.wait(); _set_closed notifies
-  { name := "send", wait := .cvLoop, precheck := false, loopChecksActive := false, prog := srcProg .chanCv },
-  -- accept (fixed): `elif not self.active: None`; cv notified on every exit of run()
-  { name := "accept", wait := .cvOnce, precheck := true, loopChecksActive := false, prog := srcProg .accept },
-  -- ensure_session (fixed): while not accepted: if not active: raise; sleep(0.1)
-  { name := "ensure_session", wait := .poll, precheck := true, loopChecksActive := true,
-    prog := srcProg .sessionPoll }
-]
 
 /-- a channel request as it was: `_event_pending()` cleared the event unconditionally -/
 def channelRequestOld : Api :=
